@@ -549,6 +549,26 @@ def _pi_multiple(a):
     return None
 
 
+def _is_sum_of_squares(t):
+    """syntactic sum of squares (x*x + y*y + ... + non-negative constants): non-negative without a proof"""
+    stack = [t]
+    while stack:
+        n = stack.pop()
+        if n.op == '+':
+            stack.extend(n.args)
+        elif n.op == '*' and n.args[0] is n.args[1]:
+            continue
+        elif n.op == 'c' and n.extra >= 0:
+            continue
+        elif n.op == '*' and n.args[0].op == 'c' and n.args[0].extra >= 0:
+            stack.append(n.args[1])
+        elif n.op == '*' and n.args[1].op == 'c' and n.args[1].extra >= 0:
+            stack.append(n.args[0])
+        else:
+            return False
+    return True
+
+
 def fn(name, a):
     c = ctx()
     if name == 'abs':
@@ -571,7 +591,7 @@ def fn(name, a):
             rn, rd = math.isqrt(n), math.isqrt(d)
             if rn * rn == n and rd * rd == d:
                 return SR.const(Fraction(rn, rd))
-        if c is not None:
+        if c is not None and not _is_sum_of_squares(a):
             c.safety('sqrt: argument non-negative', cmp('<=', ZERO, a), kind='sqrt', term=a)
         # sqrt(x*x) is |x|
         if a.op == '*' and a.args[0] is a.args[1]:
